@@ -12,6 +12,7 @@ EXPLANATION = (
     "appends before scanning and leaves the scan loop only on need-more-data conditions, so delivery depends on the concatenation of reads, not on "
     "their boundaries. The serial clauses (BUF-PROGRESS, SER-DELIVER, SER-STATE) are decided by rules_serial.py (interpreted byte-class streams under many cuts into reads: same deliveries for every cut); the CFG rules confirm. UNDECIDED: equality with the decoder's output on arbitrary streams (needs exploration), slow callbacks."
     ' Fifth round: a path through a fault handler is a witness only when no undecided test on it reads something of the client that may stand for the connection state; start / get / put sites that moved into helpers, an attempt or a callback inside a `with` over an unknown context manager, and reads made through helpers are undecided; a helper coroutine runs under the lock when every call (or hand-over as a value) of it does.'
+    ' Eighth round: [Q-FIFO] the callback may be awaited under asyncio.wait_for; several call sites are accepted when no path passes two of them between two queue.get; the handler may test with isinstance, count, and assign plain values.'
 )
 ASSUMPTIONS = ["CPython ast parser", "asyncio.Queue is FIFO", "StreamReader.readexactly/readline reassemble across transport chunks", "cfg.py exception-edge model"]
 
